@@ -4,6 +4,7 @@ import (
 	"encoding/json"
 	"fmt"
 	"math/big"
+	realrand "math/rand"
 	"os"
 	"runtime/debug"
 	"sort"
@@ -851,7 +852,10 @@ func c16runBig(c *Ctx, cs c16case) {
 	c.Check(cs, func() (string, string) {
 		var t *tree.Tree
 		var err error
-		r := guard(func() { t, err = c16gen(cs.Gen, cs.N, cs.Rooted) })
+		r := guard(func() {
+			realrand.Seed(20260930 + int64(cs.N)) // seeded run: the same draws in every (re-)execution
+			t, err = c16gen(cs.Gen, cs.N, cs.Rooted)
+		})
 		v := c16judgeLib(cs, &r, t, err)
 		if v.clause == "" {
 			return "", ""
@@ -1090,6 +1094,21 @@ func c16runTopo(c *Ctx, cs c16case) {
 				if d := sameModel(m, texts[i], false); d != "" {
 					clause, what = "object/text", fmt.Sprintf("tree #%d: the object differs from its text %s: %s", i, t.Newick(), d)
 					return
+				}
+				// the tip name index the object carries must be the one of its own tips (a tree is handed out, not a tree plus
+				// the leftovers of the enumeration): every tip is known under its rank, no name that is not a tip is known
+				tn := m.TipNames()
+				for rk, nm := range tn {
+					if ix, e := t.TipIndex(nm); e != nil || ix != rk {
+						clause, what = "object/tip-index", fmt.Sprintf("tree #%d %s: TipIndex(%q) = %d (%v), its rank among the sorted tip names is %d", i, t.Newick(), nm, ix, e, rk)
+						return
+					}
+				}
+				for _, absent := range []string{"", "zz-not-a-tip"} {
+					if ok, _ := t.ExistsTip(absent); ok {
+						clause, what = "object/tip-index", fmt.Sprintf("tree #%d %s: ExistsTip(%q) is true", i, t.Newick(), absent)
+						return
+					}
 				}
 			}
 		})
